@@ -156,8 +156,24 @@ def build(spec):
                 return Fail("lcc:not-a-largest-component")
             want = sub_model(kind, m, sorted(got_nodes), [e for e in m.edges if set(e) <= got_nodes])
         elif sel == "copy":
+            inc_e = sorted(m.edges)[0] if m.edges else None
+            if inc_e is not None and kind == "hg":
+                inc_n = inc_e[0]
+                inc_v = S.int("incidence_value")
+                h.set_incidence_metadata(inc_e, inc_n, {"role": inc_v})
+                before = obs(kind, h, f, U)
             g = h.copy()
             want = m.clone()
+            if inc_e is not None and kind == "hg":
+                try:
+                    got_inc = g.get_incidence_metadata(inc_e, inc_n)
+                except Exception:  # noqa: BLE001
+                    return Fail("copy:incidence-metadata-lost")
+                if got_inc != {"role": inc_v} or g.get_all_incidences_metadata() != h.get_all_incidences_metadata():
+                    return Fail("copy:incidence-metadata-differs")
+                g.set_incidence_metadata(inc_e, inc_n, {"role": 0, "x": 1})
+                if h.get_incidence_metadata(inc_e, inc_n) != {"role": inc_v}:
+                    return Fail("copy:mutating-the-copy-changed-the-source:incidence-metadata")
         if type(g) is not type(h):
             return Fail("%s:type" % sel)
         d = compare(obs(kind, g, f, U), obs_m(kind, want, f, U))
